@@ -9,24 +9,24 @@ import time
 import pcverif as V
 
 PROPS = {
-    "C01": dict(families="gating,gating,gating,health,manual,shutdown,restart,exiton,gating,health",
-                need=["launchWithDeps"], model=["PCLifecycle_gating.cfg"]),
+    "C01": dict(families="gating,gating,unsat,health,manual,shutdown,restart,exiton,gating,unsat,unsat",
+                need=["launchWithDeps"], model=["PCLifecycle_gating.cfg"], model_thorough=["PCLifecycle_gating.cfg", "PCLifecycle_gating3.cfg"]),
     "C02": dict(families="restart,restart,restart,restart,health,manual,gating,restart",
-                need=["relaunch", "backoff"], model=["PCLifecycle_restart.cfg"]),
+                need=["relaunch", "backoff"], model=["PCLifecycle_restart.cfg"], model_thorough=["PCLifecycle_restart.cfg", "PCLifecycle_health.cfg"]),
     "C03": dict(families="shutdown,shutdown,shutdown,shutdown,restart,exiton,gating,manual",
-                need=["shutdownReturn"], model=["PCLifecycle_shutdown.cfg"]),
-    "C04": dict(families="exiton,exiton,exiton,gating,gating,shutdown,health",
-                need=["runReturn", "runReturnTrig"], model=["PCLifecycle_gating.cfg"]),
-    "C05": dict(families="gating,gating,gating,exiton,health,shutdown,gating",
-                need=["skipped", "launchWithDeps"], model=["PCLifecycle_gating.cfg"]),
+                need=["shutdownReturn"], model=["PCLifecycle_shutdown2.cfg"], model_thorough=["PCLifecycle_shutdown2.cfg", "PCLifecycle_shutdown.cfg"]),
+    "C04": dict(families="exiton,exiton,exiton,gating,unsat,shutdown,health,gating",
+                need=["runReturn", "runReturnTrig"], model=["PCLifecycle_gating.cfg", "PCLifecycle_restart.cfg"], model_thorough=["PCLifecycle_gating.cfg", "PCLifecycle_restart.cfg", "PCLifecycle_shutdown2.cfg"]),
+    "C05": dict(families="gating,unsat,unsat,exiton,health,shutdown,gating,unsat",
+                need=["skipped", "launchWithDeps"], model=["PCLifecycle_gating.cfg"], model_thorough=["PCLifecycle_gating.cfg", "PCLifecycle_gating3.cfg"]),
     "C08": dict(families="manual,manual,manual,manual,restart,health,manual",
-                need=["apiEnd", "launch"], model=["PCLifecycle_manual.cfg"]),
-    "C09": dict(families="gating,restart,shutdown,exiton,manual,health",
-                need=["stateEv", "observeEnd", "atRest"], model=["PCLifecycle_gating.cfg", "PCLifecycle_restart.cfg"]),
+                need=["apiEnd", "launch"], model=["PCLifecycle_manualq.cfg"], model_thorough=["PCLifecycle_manualq.cfg", "PCLifecycle_manual.cfg"]),
+    "C09": dict(families="gating,restart,shutdown,exiton,manual,health,unsat",
+                need=["stateEv", "observeEnd", "atRest"], model=["PCLifecycle_gating.cfg", "PCLifecycle_restart.cfg"], model_thorough=["PCLifecycle_gating.cfg", "PCLifecycle_restart.cfg", "PCLifecycle_manualq.cfg"]),
     "C10": dict(families="health,health,health,health,gating,health",
-                need=["readyState", "fatalProbe"], model=["PCLifecycle_health.cfg"]),
+                need=["readyState", "fatalProbe"], model=["PCLifecycle_health.cfg"], model_thorough=["PCLifecycle_health.cfg"]),
     "C12": dict(families="shutdown,shutdown,shutdown,shutdown,gating,shutdown",
-                need=["signalOrderedWithDependents"], model=["PCLifecycle_shutdown.cfg"]),
+                need=["signalOrderedWithDependents"], model=["PCLifecycle_shutdown2.cfg"], model_thorough=["PCLifecycle_shutdown2.cfg", "PCLifecycle_shutdown.cfg"]),
 }
 
 COUNTS = {"quick": 1600, "thorough": 24000}
@@ -77,9 +77,10 @@ def run(pid, tier, seed, replay=None):
         print("KNOWN-FINDING: property=%s %s [%s, %s, %d scenario(s) this run]" % (pid, f["what"], fid, f["invariant"], n))
     # design model
     models = []
-    for m in cfg.get("model", []):
+    for m in (cfg.get("model", []) if tier == "quick" else cfg.get("model_thorough", [])):
         if os.path.exists(os.path.join(V.VERIF, "spec", m)):
-            r = V.run_tlc_model(pid, "PCLifecycle", m, timeout=600 if tier == "quick" else 3000)
+            r = V.run_tlc_model(pid, "PCLifecycleMC", m, timeout=600 if tier == "quick" else 3600)
+            V.log("design model %s: %d distinct states, %.0fs, violated=%s" % (m, r["distinct"], r["wall_s"], r["violated"]))
             models.append(r)
     # vacuity
     vac = [k for k in cfg["need"] if tv["coverage"].get(k, 0) == 0]
